@@ -61,6 +61,9 @@ struct Cfg {
     insert_begin: bool,
     /// set_version is called after the last id was allocated (just before module()) instead of first
     version_late: bool,
+    /// the same method was called once before with the same arguments and an implicit id (an identical
+    /// instruction / declaration already exists when the measured call with an explicit id is made)
+    prior_identical: bool,
 }
 
 fn needs_block(site: &CallSite) -> bool {
@@ -145,6 +148,16 @@ fn check_site(site: &CallSite, cfg: &Cfg) -> SiteResult {
                 b.nop().map_err(|e| ("setup".to_string(), format!("{:?}", e)))?;
             }
         }
+        if cfg.prior_identical {
+            let mut first = args.clone();
+            first.result_id = None;
+            let _ = (site.call)(&mut b, &first);
+            if block_ctx && b.selected_block().is_none() {
+                // the first call was a terminator: open another block for the measured call
+                let l2 = b.id();
+                b.begin_block(Some(l2)).map_err(|e| ("setup".to_string(), format!("{:?}", e)))?;
+            }
+        }
         let before = flatten(&snap(b.module_ref()));
         let ret = (site.call)(&mut b, &args);
         let (ok, ret_id) = match ret {
@@ -191,22 +204,27 @@ fn check_site(site: &CallSite, cfg: &Cfg) -> SiteResult {
         if emitted.args != expected.args {
             return Err(("operands".into(), format!("emitted {} ; the call's arguments in grammar order are {}", emitted.short(), expected.short())));
         }
-        let want_path = where_expected(site, block_ctx && !matches!(site.name, "capability" | "extension" | "ext_inst_import" | "memory_model" | "entry_point" | "execution_mode" | "execution_mode_id" | "decoration_group" | "string" | "type_forward_pointer" | "type_pointer" | "type_opaque" | "constant_bit32" | "constant_bit64" | "spec_constant_bit32" | "spec_constant_bit64") && !matches!(site.file, "autogen_type.rs" | "autogen_constant.rs" | "autogen_annotation.rs" | "autogen_debug.rs"));
+        let module_level_method = matches!(site.name, "capability" | "extension" | "ext_inst_import" | "memory_model" | "entry_point" | "execution_mode" | "execution_mode_id" | "decoration_group" | "string" | "type_forward_pointer" | "type_pointer" | "type_opaque" | "constant_bit32" | "constant_bit64" | "spec_constant_bit32" | "spec_constant_bit64")
+            || matches!(site.file, "autogen_type.rs" | "autogen_constant.rs" | "autogen_annotation.rs" | "autogen_debug.rs");
+        let in_blk = block_ctx && !module_level_method;
+        // the block that was selected when the measured call was made, and its length then (insertion at the end)
+        let cur_block = before.iter().filter(|x| x.0.ends_with(".label")).count().saturating_sub(1);
+        let want_path = if in_blk { format!("f0.b{}", cur_block) } else { where_expected(site, false) };
         if path != want_path {
             return Err(("placement".into(), format!("emitted into {}, expected {}", path, want_path)));
         }
-        if block_ctx && path == "f0.b0" {
-            let idx_in_block = after[..pos].iter().filter(|x| x.0 == "f0.b0").count();
-            let want_idx = if cfg.insert_begin && site.params.iter().any(|p| p.ty == Ty::InsertPoint) { 1 } else if cfg.insert_begin { 1 } else { 0 };
+        if in_blk {
+            let idx_in_block = after[..pos].iter().filter(|x| x.0 == want_path).count();
+            let want_idx = before.iter().filter(|x| x.0 == want_path).count();
             if idx_in_block != want_idx {
-                return Err(("placement".into(), format!("emitted at index {} of the block, expected {}", idx_in_block, want_idx)));
+                return Err(("placement".into(), format!("emitted at index {} of the block, expected {} (appended at the end)", idx_in_block, want_idx)));
             }
         }
         // ---- C16 (Builder half): the block is ended exactly for the opcodes the terminator predicate accepts
         let op = spirv::Op::from_u32(gi.opcode as u32).unwrap();
         let is_term_pred = rspirv::grammar::reflect::is_block_terminator(op);
         let mut recovered = false;
-        if block_ctx && path == "f0.b0" {
+        if in_blk {
             let cleared = b.selected_block().is_none();
             if cleared != is_term_pred {
                 out.c16.push(viol(
@@ -217,7 +235,7 @@ fn check_site(site: &CallSite, cfg: &Cfg) -> SiteResult {
             }
             // complete the history: each begun block is ended by a terminator call
             if cleared && !g.in_class("terminator", site.opcode) {
-                b.select_block(Some(0)).map_err(|e| ("setup".to_string(), format!("{:?}", e)))?;
+                b.select_block(Some(cur_block)).map_err(|e| ("setup".to_string(), format!("{:?}", e)))?;
                 recovered = true;
             }
         }
@@ -284,12 +302,13 @@ fn check_site(site: &CallSite, cfg: &Cfg) -> SiteResult {
 }
 
 fn configs(site: &CallSite, tier: Tier) -> Vec<Cfg> {
-    let base = Cfg { explicit_id: false, opt_upto: usize::MAX, list_len: 2, choice_at: None, in_block: false, insert_begin: false, version_late: false };
+    let base = Cfg { explicit_id: false, opt_upto: usize::MAX, list_len: 2, choice_at: None, in_block: false, insert_begin: false, version_late: false, prior_identical: false };
     let mut v = vec![base.clone(), Cfg { version_late: true, ..base.clone() }];
     let has_id = site.params.iter().any(is_result_id_param);
     let has_ip = site.params.iter().any(|p| p.ty == Ty::InsertPoint);
     if has_id {
         v.push(Cfg { explicit_id: true, ..base.clone() });
+        v.push(Cfg { explicit_id: true, prior_identical: true, ..base.clone() });
     }
     // optional trailing runs: every prefix of the optional parameters present
     let opt_pos: Vec<usize> = site.params.iter().enumerate().filter(|(_, p)| matches!(p.ty, Ty::OptWord | Ty::OptVal(_) | Ty::OptStr) && !is_result_id_param(p)).map(|(i, _)| i).collect();
